@@ -18,7 +18,8 @@ contract("C19.cache_lock_enter",
          params={"self": "CacheLock"}, returns=None, enc="native",
          raises={"CacheException": "True"},
          modifies=["self.cache_lock", "self.current_timestamp"],
-         ghost={"sets": {"cache_locked": "True"}, "init": {"fs_mkdir_may_clash": "False", "lock_wait_is_the_short_constant": "False"}},
+         ghost={"sets": {"cache_locked": "True", "lock_keeps_refresh_time": "self.write_time"},
+                "init": {"fs_mkdir_may_clash": "False", "lock_wait_is_the_short_constant": "False"}},
          ensures={
              "C19.L1.returns_only_with_lock_held": "self.cache_lock is not None and self.cache_lock.held",
              # "runs concurrently in several processes ... no later or concurrent load fails": two first users may both find the cache
@@ -56,8 +57,11 @@ contract("C19.write_last_cached_time",
 contract("C19.copy_installed_folder_to_cache",
          file="hed/schema/hed_cache.py", func="_copy_installed_folder_to_cache",
          params={"cache_folder": "Str", "sub_folder": "Str"}, returns=None, enc="native",
-         ghost={"init": {"fs_torn_servable": "False"}, "vars": {"cache_locked": "Bool"}},
-         requires=["cache_locked"],          # C19 L1: population writes only while the folder lock is held
+         ghost={"init": {"fs_torn_servable": "False"}, "vars": {"cache_locked": "Bool", "lock_keeps_refresh_time": "Bool"}},
+         # C19 L1: population writes only while the folder lock is held. "a refresh attempted within the refresh interval is skipped" is
+         # about downloads: copying the INSTALLED files is no refresh - its lock neither obeys nor records the refresh time (otherwise a
+         # folder with a recent time stamp and a missing file is not repopulated, and a population postpones the next real refresh)
+         requires=["cache_locked", "not lock_keeps_refresh_time"],
          raises={"OSError": "True"},
          ensures={"C19.L2.no_in_place_copy_to_served_name": "not fs_torn_servable"},
          assume=["iteration over os.listdir is explored as one arbitrary iteration from a havocked state "
